@@ -10,4 +10,5 @@ pub mod generated;
 pub mod model;
 #[macro_use]
 pub mod runner;
+pub mod hist;
 pub mod cases;
